@@ -1108,6 +1108,11 @@ impl<T: Transport, Env: UtpEnvironment> VirtualSocket<T, Env> {
                 self.restart_remote_inactivity_timer();
                 self.state = Established;
             }
+            // A FIN is honoured only in sequence, also while the handshake is being completed.
+            (SynAckSent { .. }, ST_FIN) if hdr.seq_nr != self.last_consumed_remote_seq_nr + 1 => {
+                trace!(hdr=%hdr.short_repr(), "dropping out of sequence FIN in syn-ack-sent");
+                return Ok(Default::default());
+            }
             (SynAckSent { .. }, ST_FIN) => {
                 trace!("state: syn-ack-sent -> closed");
                 self.state = Closed;
